@@ -313,6 +313,9 @@ func (c *Ctx) checkRegexpSwitch(construct string, pos token.Pos, d *ast.FuncDecl
 	var walk func(r *syntax.Regexp)
 	var lits func(r *syntax.Regexp) bool
 	lits = func(r *syntax.Regexp) bool {
+		if r.Flags&syntax.FoldCase != 0 {
+			return false // case-insensitive literal: not a finite set of spellings
+		}
 		switch r.Op {
 		case syntax.OpLiteral:
 			alts[string(r.Rune)] = true
